@@ -513,6 +513,55 @@ func (r *Run) ledger(evs []verif.Event, drained bool) {
 		idOfKey[key], keyOfID[tid], tsOfID[tid] = id, key, ts
 	}
 	_ = drained
+	// C03, client-visible: POST /topic/pause is answered only after the topic's pump has taken notice, so whatever is published
+	// from then on stays in the topic until somebody asks for an unpause -- no consumer can receive it in between, whatever
+	// kind of publish it was and wherever the topic had to put it
+	type ival struct{ open bool }
+	cur := map[string]*ival{}      // topic -> the interval "pause answered 200, no unpause requested yet"
+	unpausing := map[string]int{}  // topic -> unpause requests under way
+	under := map[string]*ival{}    // key -> interval its publish began in
+	topicOf := func(path, pre string) string {
+		if !strings.HasPrefix(path, pre) {
+			return ""
+		}
+		return strings.TrimPrefix(path, pre)
+	}
+	reported := 0
+	for _, e := range evs {
+		switch e.Ev {
+		case "HAdmin":
+			if t := topicOf(hlib.KVStr(e, "path"), "/topic/unpause?topic="); t != "" {
+				unpausing[t]++
+				if iv := cur[t]; iv != nil {
+					iv.open = false
+					delete(cur, t)
+				}
+			}
+		case "HAdminDone":
+			path := hlib.KVStr(e, "path")
+			if t := topicOf(path, "/topic/unpause?topic="); t != "" {
+				unpausing[t]--
+			}
+			if t := topicOf(path, "/topic/pause?topic="); t != "" && hlib.KVInt(e, "status") == 200 && unpausing[t] == 0 && cur[t] == nil {
+				cur[t] = &ival{open: true}
+			}
+		case "HPub":
+			if iv := cur[hlib.KVStr(e, "t")]; iv != nil {
+				under[hlib.KVStr(e, "key")] = iv
+			}
+		case "HRecv":
+			d, _ := hlib.KVGet(e, "body").(verif.BodyDigest)
+			key := keyOf([]byte(d.Pre))
+			if iv := under[key]; iv != nil && iv.open && reported < 3 {
+				reported++
+				via := ""
+				if rec := r.byKey[key]; rec != nil {
+					via = fmt.Sprintf(" (%s, defer %d ms, topic %s)", rec.Via, rec.Defer, rec.Topic)
+				}
+				r.failf("[C03] message %s%s was published after POST /topic/pause had been answered 200 and was delivered to a consumer before anybody asked for an unpause", key, via)
+			}
+		}
+	}
 }
 
 func (r *Run) statsVariants(s *Stats) {
